@@ -68,7 +68,7 @@ def strategy_(draw, tier):
             nt = draw(st.sampled_from(["int8", "int16", "int32", "float32", "float64"]))
         items.append(dict(kind="sds", w=w, nt=nt, dims=dims, name="ds%d" % i,
                           strs=draw(st.booleans()), fill=draw(st.booleans()), rng=draw(st.booleans()),
-                          scale=draw(st.booleans()), slabs=draw(st.integers(1, 3)),
+                          scale=draw(st.booleans()), smask=draw(st.integers(0, 7)), slabs=draw(st.integers(1, 3)),
                           unlim=(w == "sd" and draw(st.integers(0, 2)) == 0)))
     for i in range(draw(st.integers(0, 2))):
         items.append(dict(kind="ri8", w=draw(st.sampled_from(["dfr8", "dfr8", "gr"])), x=draw(st.integers(1, 9)),
@@ -121,7 +121,10 @@ def write_item(it, k, d, model):
         it["data"] = a
         fillv = vals(nt, 1, 77)
         rmax, rmin = vals(nt, 1, 5), vals(nt, 1, 6)
-        scale = vals(nt, dims[0], 9)
+        # dimensions that carry a scale: any non-empty subset (older replay files: the first dimension)
+        sd_ = [j for j in range(len(dims)) if (it.get("smask", 1) >> j) & 1] or [0]
+        it["sdims"] = sd_
+        scales = {j: vals(nt, dims[j], 9 + j) for j in sd_}
         if it["w"] in ("dfsd", "dfsd_slab"):
             p.call("i", "DFSDclear")
             p.call("i", "DFSDsetNT", code)
@@ -131,7 +134,8 @@ def write_item(it, k, d, model):
             if it["rng"]:
                 p.call("i", "DFSDsetrange", rmax.tobytes(), rmin.tobytes())
             if it["scale"]:
-                p.call("i", "DFSDsetdimscale", 1, dims[0], scale.tobytes())
+                for j in sd_:
+                    p.call("i", "DFSDsetdimscale", j + 1, dims[j], scales[j].tobytes())
             if it["w"] == "dfsd":
                 if it["fill"]:
                     p.call("i", "DFSDsetfillvalue", fillv.tobytes())
@@ -163,8 +167,9 @@ def write_item(it, k, d, model):
             if it["rng"]:
                 p.call("i", "SDsetrange", V("s"), rmax.tobytes(), rmin.tobytes())
             if it["scale"]:
-                p.call("i", "SDgetdimid", V("s"), 0, bind="dm")
-                p.call("i", "SDsetdimscale", V("dm"), dims[0], code, scale.tobytes())
+                for j in sd_:
+                    p.call("i", "SDgetdimid", V("s"), j, bind="dm")
+                    p.call("i", "SDsetdimscale", V("dm"), dims[j], code, scales[j].tobytes())
             p.call("i", "SDwritedata", V("s"), i32s(*([0] * len(dims))), None, i32s(*dims), a.tobytes())
             p.call("i", "SDendaccess", V("s"))
             p.call("i", "SDend", V("sd"))
@@ -181,7 +186,7 @@ def write_item(it, k, d, model):
             p.call("i", "H4_ncvarput", V("nc"), V("var"), longs(*([0] * len(dims))), longs(*dims), a.tobytes())
             p.call("i", "H4_ncclose", V("nc"))
             it["strs"] = it["fill"] = it["rng"] = it["scale"] = False
-        it["fillv"], it["rmax"], it["rmin"], it["scalev"] = fillv, rmax, rmin, scale
+        it["fillv"], it["rmax"], it["rmin"], it["scalev"] = fillv, rmax, rmin, scales
     elif it["kind"] == "ri8":
         x, y = it["x"], it["y"]
         img = vals("uint8", x * y, k + 11).reshape(y, x)
@@ -592,8 +597,10 @@ def check(case, d, labels, excluded, known_keys):
             if it["rng"]:
                 ln["rng"] = q.call("i", "SDgetrange", V("s"), Out(isz), Out(isz))
             if it["scale"]:
-                q.call("i", "SDgetdimid", V("s"), 0, bind="dm")
-                ln["scale"] = q.call("i", "SDgetdimscale", V("dm"), Out(isz * it["dims"][0]))
+                ln["scale"] = {}
+                for j in it["sdims"]:
+                    q.call("i", "SDgetdimid", V("s"), j, bind="dm")
+                    ln["scale"][j] = q.call("i", "SDgetdimscale", V("dm"), Out(isz * it["dims"][j]))
             ln["ref"] = q.call("i", "SDidtoref", V("s"))
             q.call("i", "SDendaccess", V("s"))
             rl.append((it, ln))
@@ -617,8 +624,10 @@ def check(case, d, labels, excluded, known_keys):
             if "rng" in ln and (qq.res[ln["rng"]].ret != 0 or qq.res[ln["rng"]].bufs[0] != it["rmax"].tobytes() or
                                 qq.res[ln["rng"]].bufs[1] != it["rmin"].tobytes()):
                 raise Fail("range read through SD differs from what %s wrote" % it["w"], program=prog)
-            if "scale" in ln and (qq.res[ln["scale"]].ret != 0 or qq.res[ln["scale"]].bufs[0] != it["scalev"].tobytes()):
-                raise Fail("dimension scale read through SD differs from what %s wrote" % it["w"], program=prog)
+            for j, l_ in (ln.get("scale") or {}).items():
+                if qq.res[l_].ret != 0 or qq.res[l_].bufs[0] != it["scalev"][j].tobytes():
+                    raise Fail("dimension scale read through SD differs from what %s wrote" % it["w"], dimension=j,
+                               scaled_dimensions=it["sdims"], ret=qq.res[l_].ret, program=prog)
             refs[id(it)] = qq.res[ln["ref"]].ret
         # ------------------------------------------------------------ datasets through DFSD (sequential)
         # SD also writes an NDG for every coordinate variable, which DFSD presents as a dataset of its own: the
@@ -669,7 +678,8 @@ def check(case, d, labels, excluded, known_keys):
             ln["strs"] = q.call("i", "DFSDgetdatastrs", OutS(300), OutS(300), OutS(300), OutS(300))
             ln["fill"] = q.call("i", "DFSDgetfillvalue", Out(8))
             ln["rng"] = q.call("i", "DFSDgetrange", Out(8), Out(8))
-            ln["scale"] = q.call("i", "DFSDgetdimscale", 1, e["dims"][0], Out(isz * e["dims"][0]))
+            ln["scale"] = {j: q.call("i", "DFSDgetdimscale", j + 1, e["dims"][j], Out(isz * e["dims"][j]))
+                           for j in range(len(e["dims"]))}
             ln["read"] = q.call("i", "DFSDgetdata", F, len(e["dims"]), i32s(*e["dims"]), Out(max(n * isz, 1)))
             rl.append((e, ln, isz))
         qq = run(q, cwd=d, timeout=60)
@@ -705,8 +715,12 @@ def check(case, d, labels, excluded, known_keys):
             if it["rng"] and (qq.res[ln["rng"]].ret != 0 or qq.res[ln["rng"]].bufs[0][:isz] != it["rmax"].tobytes() or
                               qq.res[ln["rng"]].bufs[1][:isz] != it["rmin"].tobytes()):
                 raise Fail("range read through DFSD differs from what %s wrote" % it["w"], program=prog)
-            if it["scale"] and (qq.res[ln["scale"]].ret != 0 or qq.res[ln["scale"]].bufs[0] != it["scalev"].tobytes()):
-                raise Fail("dimension scale read through DFSD differs from what %s wrote" % it["w"], program=prog)
+            if it["scale"]:
+                for j in it["sdims"]:
+                    l_ = ln["scale"][j]
+                    if qq.res[l_].ret != 0 or qq.res[l_].bufs[0] != it["scalev"][j].tobytes():
+                        raise Fail("dimension scale read through DFSD differs from what %s wrote" % it["w"],
+                                   dimension=j, scaled_dimensions=it["sdims"], ret=qq.res[l_].ret, program=prog)
         # ------------------------------------------------------------ datasets through the netCDF-style calls
         q = Prog()
         q.call("i", "hx_set_ncopts", 0)        # errors are return values, not fatal
